@@ -12,7 +12,7 @@ from lib.common import Ctx, Build, Scratch, InfraError, pmap
 from lib import emusrv, obs, pv
 from lib.emusrv import Ev, Fin, i32, i64
 from lib.explore import ServerPool, Explorer, Ref, short_hist, bind_shallow
-from checks.c08 import PrefixPool
+from checks.c08 import PrefixPool, PrefixRefused, report_prefix
 from checks.threadcpu import ACTIVE
 
 
@@ -287,7 +287,11 @@ def run_emulator(ctx, build, scratch, tier):
             s = pool.local.streams
             sidx = [s[relA], s[relB]]
             prefix = [Ev(sidx[0], "OHx", i32(0, 101) + i64(0)), Ev(sidx[1], "OHx", i32(1, 201) + i64(0))]
-            pp = PrefixPool(pool, prefix)
+            try:
+                pp = PrefixPool(pool, prefix)
+            except PrefixRefused as e:
+                report_prefix(ctx, e, "walk-%s-%s" % (kind, who), pool.flags, spec)
+                continue
             ref = MarkRef(sidx, kind, defined1=(db is not None))
             ref.spec = {"spec": spec, "marks_A": da, "marks_B": db}
             ex = Explorer(ctx, pp, ref, name="walk-%s-%s" % (kind, who), report_props={"C17"}, check_time=False,
